@@ -138,6 +138,22 @@ def explore(ck: Check, n_tables: int, xlsx_every: int) -> None:
                         props = sheet2.schema.properties  # type: ignore[attr-defined]
                         simpl.append(".".join(f"{hexcell(k)}@{v.attributes['position']}" for k, v in props.items()) + ":" +
                                      ("/".join(".".join(hexcell(cell_text(c)) for c in r.instance) for r in rows2) or "!"))
+                    # … and a schema bound with set_schema AFTER the heading-row loader was used: every row of the next pass is
+                    # delivered (the heading-row loader is gone), read through the bound schema
+                    hand = SchemaMaker.from_json({"type": "object", "properties": {f"K{j}": {"type": "string", "position": j} for j in range(len(t[0]))}})
+                    sheet2.set_schema(hand)
+                    buf.seek(0); buf.truncate(0)
+                    _csv.writer(buf).writerows(t)
+                    buf.seek(0)
+                    rows3 = list(sheet2.rows())
+                    got3 = [[cell_text(r.name(f"K{j}").value()) for j in range(len(t[0]))] for r in rows3]
+                    if got3 != t:
+                        ck.fail("by-name", f"csv: after set_schema() on a sheet that had the heading-row loader, a pass delivers {len(got3)} rows "
+                                           f"for {len(t)} physical rows / other cells", {"table": t})
+                    sops += ["S=" + ".".join(hexcell(f"K{j}") for j in range(len(t[0]))),
+                             "P=" + "/".join(".".join(hexcell(c) for c in r) if r else "~" for r in t)]
+                    simpl.append(".".join(f"{hexcell(f'K{j}')}@{j}" for j in range(len(t[0]))) + ":" +
+                                 ("/".join(".".join(hexcell(cell_text(c)) for c in r.instance) for r in rows3) or "!"))
                     reqs.append("FAC sheet " + " ".join(sops))
                     impl.append("|".join(simpl))
                     inputs.append({"table": t, "sigma": sigma, "what": "two passes over one Sheet object"})
@@ -179,7 +195,7 @@ def explore(ck: Check, n_tables: int, xlsx_every: int) -> None:
             ck.fail("empty-sheet", f"a workbook with an empty sheet between two others cannot be iterated: {str(got)[:80]}", {"format": "xlsx"})
         # ---- external schema sheet: (name, description, type) rows -> properties in order, positions 0..n-1, same reads
         for i in range(max(5, n_tables // 10)):
-            names = gen_table(rng, n_cols=rng.randint(1, 5), n_rows=0)[0]
+            names = gen_table(rng, n_cols=rng.randint(1, 5), n_rows=0, cleaning_headers=(i % 2 == 0))[0]   # some names are not legal anchors
             spath = tdp / f"schema{i}.csv"
             write_csv(spath, [[n, f"desc {n}", "string"] for n in names])
             data = gen_table(rng, n_cols=len(names), n_rows=rng.randint(1, 4))
